@@ -437,6 +437,10 @@ impl Database {
                 while child_cursor.valid() {
                     let child_key = child_cursor.key()?.to_vec();
                     let child_value = child_cursor.value()?;
+                    if crate::database::dml::mvcc_helpers::is_tombstone(child_value) {
+                        child_cursor.advance()?;
+                        continue;
+                    }
                     let child_user_data = get_user_data(child_value);
                     let child_record = RecordView::new(child_user_data, &child_record_schema)?;
                     let child_row =
